@@ -862,7 +862,11 @@ class Evaluator(object):
                         cont = self.ev(v.func.value, env)
                         args = tuple(self.ev(a, env) if not isinstance(a, ast.Starred) else tm.mk("star", self.ev(a.value, env)) for a in v.args)
                     key = tm.none() if isinstance(v.func.value, ast.Name) else tm.mk("at", cont, tm.none())
-                    env[root] = tm.upd(env[root], "method:" + v.func.attr, key, tm.tup(args))
+                    if v.func.attr == "append" and isinstance(v.func.value, ast.Name) and env[root].op == "list" and len(args) == 1 and args[0].op != "star" and not self.loopstack:
+                        # xs = [a]; xs.append(b) in straight-line code is xs = [a, b]
+                        env[root] = tm.lst(list(env[root].a) + [args[0]])
+                    else:
+                        env[root] = tm.upd(env[root], "method:" + v.func.attr, key, tm.tup(args))
                     for ms in reversed(self.summary.sites):
                         if ms.kind == "mutate" and ms.node is v:
                             ms.d["new"] = env[root]
@@ -1501,6 +1505,10 @@ class Evaluator(object):
             return tm.ite(fn.a[0], self.apply(fn.a[1], args, kw), self.apply(fn.a[2], args, kw))
         if fn.op in ("undef", "unk"):
             return tm.unk("call-of-" + fn.op)
+        if fn.op == "lambda" and not kw and len(args) == len(fn.a[0]) and not any(a.op == "star" for a in args):
+            # (lambda p: E)(a) is E with a for p
+            bind = dict(zip(fn.a[0], args))
+            return tm.rebuild(fn.a[1], lambda x: bind.get(x.a[0]) if x.op == "lparam" else None)
         return tm.call(fn, args, kw)
 
 
